@@ -13,6 +13,14 @@ use crate::core::{Config, Report};
 
 fn main() {
     let args: Vec<String> = std::env::args().collect();
+    if args.len() >= 3 && args[1] == "parse" {
+        // debugging aid: show what every parser and the grammar model say about the given strings
+        core::install_panic_hook();
+        for s in &args[2..] {
+            mon::c12::show(s);
+        }
+        return;
+    }
     if args.len() < 3 || args[1] != "run" {
         eprintln!("usage: tvh run <Cxx> --tier T --seed N --shard i/n --out FILE [--only IDX] [--scale F] [--verbose]");
         std::process::exit(2);
@@ -61,9 +69,19 @@ fn main() {
     core::install_panic_hook();
     let cfg = Config { property: property.clone(), tier, seed, shard, nshards, only, build, scale, verbose };
     let mut rep = Report::new(cfg);
-    if !mon::dispatch(&property, &mut rep) {
-        eprintln!("unknown property {property}");
-        std::process::exit(2);
+    let ok = std::panic::catch_unwind(std::panic::AssertUnwindSafe(|| mon::dispatch(&property, &mut rep)));
+    match ok {
+        Ok(true) => {}
+        Ok(false) => {
+            eprintln!("unknown property {property}");
+            std::process::exit(2);
+        }
+        Err(_) => {
+            // a panic in the harness itself (not inside a call into /repo): report it and die
+            let (loc, msg) = core::last_panic();
+            eprintln!("HARNESS PANIC at {loc}: {msg} (case {})", rep.case_idx);
+            std::process::exit(101);
+        }
     }
     let js = rep.to_json();
     let text = serde_json::to_string(&js).expect("json");
